@@ -29,7 +29,14 @@ func ToNTP(t time.Time) uint64 {
 
 // ToNTP32 converts a time.Time object to a uint32 NTP timestamp.
 func ToNTP32(t time.Time) uint32 {
-	return uint32(ToNTP(t) >> 16) //nolint:gosec // G115
+	// Integer arithmetic: ToNTP rounds the instant to a float64 grid of 2^-21 s
+	// first, which moves it by up to half a microsecond in either direction;
+	// together with the 1/65536 s lost below that is more than the resolution
+	// of this format.
+	seconds := uint64(t.Unix() + 2208988800)              //nolint:gosec // G115
+	fraction := uint64(t.Nanosecond()) << 16 / 1000000000 //nolint:gosec // G115
+
+	return uint32(seconds<<16 | fraction) //nolint:gosec // G115
 }
 
 // ToTime converts a uint64 NTP timestamps to a time.Time object.
